@@ -136,6 +136,7 @@ PROPS["C06"] = dict(
         dict(test="^TestC06_Exhaustive$", quick=dict(timeout=900), thorough=dict(shards=6, timeout=3000)),
         dict(test="^TestC06_RandomOrder$", quick=dict(checks=30, timeout=900), thorough=dict(checks=200, shards=6, timeout=3000)),
         dict(test="^TestC06_ConcurrentDiscard$", quick=dict(checks=30, timeout=900), thorough=dict(checks=300, shards=4, timeout=3000)),
+        dict(test="^TestC06_RollingAsyncPolicy$", quick=dict(checks=30, timeout=900), thorough=dict(checks=300, shards=2, timeout=3000)),
     ],
 )
 
